@@ -136,3 +136,40 @@ def details(tag, path, src_stage="mono", fuel=FUEL):
         nums = [int(re.sub(r"%\w+", "", x)) for x in text.strip()[1:-1].split(";") if x.strip()]
         res.append({"stdout": bytes(nums).decode("utf-8", "replace"), "ending": " ".join(ending.split())[:120]})
     return {"source_semantics(%s)" % src_stage: res[0] if res else None, "go_semantics": res[1] if len(res) > 1 else None, "go_text": r.get("go")}
+
+
+def go_outputs(tag, paths, per=10, fuel=FUEL):
+    """stdout and ending of the emitted Go of each program under Sem/GoSem.v
+    -> list of dict(status 'ok'|'rejected'|'panic'|'conv-error', stdout bytes, ending text, go_text)"""
+    res = vlib.run_harness("compile", [{"path": p, "dumps": ["go_dbg"], "timeout_ms": 20000} for p in paths], shards=vlib.NCPU)
+    out = [None] * len(paths)
+    defs = []
+    for i, r in enumerate(res):
+        if "panic" in r or r.get("timeout"):
+            out[i] = {"status": "panic", "compile": r}
+            continue
+        if not r.get("ok"):
+            out[i] = {"status": "rejected", "compile": {k: v for k, v in r.items() if k != "go"}}
+            continue
+        try:
+            gof = go2coq.file(rustdbg.parse(r["dumps"]["go_dbg"]))
+        except (go2coq.Conv, rustdbg.ParseError, KeyError, AssertionError, IndexError, ValueError) as e:
+            out[i] = {"status": "conv-error", "error": repr(e)[:300], "go_text": r.get("go")}
+            continue
+        defs.append((i, "Module PG%d. Import Sem.GoAst Sem.GoSem. Definition r := run_go %s (N.to_nat %d). End PG%d.\nEval vm_compute in PG%d.r.\n" % (i, gof, fuel, i, i)))
+        out[i] = {"status": "ok", "go_text": r.get("go")}
+    texts, groups = [], []
+    for k in range(0, len(defs), per):
+        g = defs[k : k + per]
+        texts.append(HEADER + "".join(d for _, d in g))
+        groups.append([i for i, _ in g])
+    outs = vlib.coq_eval_many(tag, texts, timeout=1500) if texts else []
+    for g, o in zip(groups, outs):
+        parts = re.findall(r"=\s*\((\[.*?\]),\s*(.*?)\)\s*:\s*str \*", o, re.S)
+        if len(parts) != len(g):
+            raise Broken("coq-output", o[-800:])
+        for i, (text, ending) in zip(g, parts):
+            nums = [int(re.sub(r"%\w+", "", x)) for x in text.strip()[1:-1].split(";") if x.strip()]
+            out[i]["stdout"] = bytes(nums)
+            out[i]["ending"] = " ".join(ending.split())[:120]
+    return out
